@@ -42,6 +42,10 @@ class Bad(Exception):
     """the operation is not admissible in the current state"""
 
 
+class Fail(Exception):
+    """the library call returns -1"""
+
+
 class Sim:
     def __init__(self):
         self.n = {}        # id -> dict(kind, kids=[[key(bytes) or None, child id or None]], cb=tag or None)
@@ -117,6 +121,8 @@ class Sim:
         i = int(s[1:])
         if i not in self.n:
             raise Bad("dead handle " + s)
+        if self.n[i].get("anon"):
+            raise Bad("a copy made inside json_patch has no handle")
         return i
 
     def want_kind(self, i, k):
@@ -254,6 +260,14 @@ class Sim:
         elif a[0] == "use":
             i = self.handle(a[1])
             r["dump"] = self.dump(i)
+        elif a[0] in ("padd", "prepl", "prem", "pcopy", "pmove"):
+            import copy
+            snap = copy.deepcopy((self.n, self.L))
+            try:
+                r["ret"] = self._patch(a)
+            except Bad:
+                self.n, self.L = snap
+                raise
         else:
             raise Bad("op " + op)
         r["dead"] = self.sweep()
@@ -261,18 +275,140 @@ class Sim:
             r["ret"] = 0 if r["put"] in self.n else 1
         return r
 
+    # ---------------------------------------------------------------- json_patch (one operation)
+    # Ownership view: add / replace / copy store a deep copy of the value (made with the default
+    # shallow copy, which fails on a node carrying userdata it does not know), move re-links the
+    # node itself; the client's ledger never changes; a failing operation returns -1.
+    def _ptoks(self, path):
+        if path == b"":
+            raise Bad("patch on the root")
+        if path[:1] != b"/":
+            raise Fail()
+        return path[1:].split(b"/")
+
+    @staticmethod
+    def _unesc(t):
+        if re.search(rb"~(?![01])", t):
+            raise Fail()
+        return t.replace(b"~1", b"/").replace(b"~0", b"~")
+
+    def _tok_get(self, cur, t):
+        if cur is None:
+            raise Fail()
+        nd = self.n[cur]
+        if nd["kind"] == "a":
+            idx = self._index(t)
+            if idx is None or idx >= len(nd["kids"]):
+                raise Fail()
+            return nd["kids"][idx][1]
+        key = self._unesc(t)
+        if nd["kind"] != "o":
+            raise Fail()
+        for k2, c in nd["kids"]:
+            if k2 == key:
+                return c
+        raise Fail()
+
+    def _resolve(self, root, toks):
+        parent, cur = None, root
+        for t in toks:
+            parent, cur = cur, self._tok_get(cur, t)
+        return parent, toks[-1], cur
+
+    def _patch_store(self, root, toks, v, mode):
+        cur = root
+        for t in toks[:-1]:
+            cur = self._tok_get(cur, t)
+        if cur is None:
+            raise Fail()
+        nd, t = self.n[cur], toks[-1]
+        if v is not None and v != cur and self.reach(v, cur):
+            raise Bad("cycle")
+        if nd["kind"] == "a":
+            if v == cur:
+                raise Bad("cycle")
+            if t == b"-":
+                nd["kids"].append([None, v])
+                return
+            idx = self._index(t)
+            if idx is None or idx > len(nd["kids"]):
+                raise Fail()
+            if mode == "replace":
+                nd["kids"][idx][1] = v
+            else:
+                nd["kids"].insert(idx, [None, v])
+        elif nd["kind"] == "o":
+            key = self._unesc(t)
+            if v == cur:
+                raise Fail()
+            for ent in nd["kids"]:
+                if ent[0] == key:
+                    ent[1] = v
+                    return
+            nd["kids"].append([key, v])
+        else:
+            raise Fail()
+
+    def _patch_remove(self, parent, tok):
+        nd = self.n[parent]
+        if nd["kind"] == "a":
+            del nd["kids"][int(tok)]
+        else:
+            key = self._unesc(tok)
+            nd["kids"] = [e for e in nd["kids"] if e[0] != key]
+
+    def _patch_copy(self, v):
+        if v is None:
+            return None
+        if self.unfold_size(v, 400) >= 400:
+            raise Bad("copy too large")
+        if self._any_cb(v):
+            raise Fail()
+        return self._copy(v, False, True)
+
+    def _patch(self, a):
+        root = self.handle(a[1])
+        try:
+            if a[0] in ("padd", "prepl"):
+                v = self.handle(a[3], True)
+                toks = self._ptoks(unhex(a[2]))
+                if a[0] == "prepl":
+                    self._resolve(root, toks)
+                self._patch_store(root, toks, self._patch_copy(v), "add" if a[0] == "padd" else "replace")
+            elif a[0] == "prem":
+                toks = self._ptoks(unhex(a[2]))
+                parent, tok, _ = self._resolve(root, toks)
+                self._patch_remove(parent, tok)
+            elif a[0] == "pcopy":
+                ftoks, toks = self._ptoks(unhex(a[2])), self._ptoks(unhex(a[3]))
+                _, _, obj = self._resolve(root, ftoks)
+                self._patch_store(root, toks, self._patch_copy(obj), "add")
+            else:
+                frm, path = unhex(a[2]), unhex(a[3])
+                ftoks, toks = self._ptoks(frm), self._ptoks(path)
+                if path.startswith(frm) and path != frm and path[len(frm):len(frm) + 1] == b"/":
+                    raise Fail()
+                parent, tok, obj = self._resolve(root, ftoks)
+                if path == frm:
+                    return 0
+                self._patch_remove(parent, tok)
+                self._patch_store(root, toks, obj, "move")
+        except Fail:
+            return -1
+        return 0
+
     def _any_cb(self, i):
         nd = self.n[i]
         return nd["cb"] is not None or any(c is not None and self._any_cb(c) for _, c in nd["kids"])
 
-    def _copy(self, src, custom):
+    def _copy(self, src, custom, anon=False):
         me = self.nxt
         self.nxt += 1
         nd = self.n[src]
-        self.n[me] = dict(kind=nd["kind"], kids=[], cb=0 if custom else None)
+        self.n[me] = dict(kind=nd["kind"], kids=[], cb=0 if custom else None, anon=anon)
         self.L[me] = 0
         for key, c in nd["kids"]:
-            self.n[me]["kids"].append([key, None if c is None else self._copy(c, custom)])
+            self.n[me]["kids"].append([key, None if c is None else self._copy(c, custom, anon)])
         return me
 
     @staticmethod
@@ -531,8 +667,10 @@ class Gen:
                 if root is not None and v is not None and not sim.reach(v, root):
                     path = rng.choice(["6b", "2f6e6f2f78", "2f30312f", "2f7e32", "2f782f79", "2f2d2f2d"])
                     self.do("ptrset h%d %s h%d" % (root, path, v), "ptrset-fail")
-        elif r < 0.72:   # pointer set
+        elif r < 0.70:   # pointer set
             self.ptrset()
+        elif r < 0.74:   # one-operation JSON patches
+            self.patch()
         elif r < 0.78:
             i = self.pick(lambda i: True)
             if i is not None:
@@ -565,6 +703,75 @@ class Gen:
             i = self.pick(lambda i: True)
             if i is not None:
                 self.do("use h%d" % i)
+
+    def descend(self, root, p=0.5, plain=False):
+        """a random existing path below root: (tokens, node reached)"""
+        rng, sim = self.rng, self.sim
+        toks, cur = [], root
+        while rng.random() < p:
+            nd = sim.n[cur]
+            cands = [(j, k, c) for j, (k, c) in enumerate(nd["kids"]) if c is not None
+                     and (k is None or (k and b"\0" not in k and not (plain and (b"~" in k or b"/" in k))))]
+            if not cands:
+                break
+            j, k, c = rng.choice(cands)
+            toks.append(str(j).encode() if nd["kind"] == "a" else k.replace(b"~", b"~0").replace(b"/", b"~1"))
+            cur = c
+        return toks, cur
+
+    def last_token(self, cur, existing):
+        rng, sim = self.rng, self.sim
+        nd = sim.n[cur]
+        if nd["kind"] == "a":
+            ln = len(nd["kids"])
+            if existing:
+                return str(rng.randrange(ln)).encode() if ln else b"0"
+            return rng.choice([b"-", str(ln).encode(), b"0", str(max(0, ln - 1)).encode(), str(ln + 2).encode(), b"01"])
+        ks = [k for k, _ in nd["kids"] if k and b"\0" not in k]
+        key = rng.choice(ks) if ks and (existing or rng.random() < 0.5) else unhex(rng.choice(KEYS))
+        return key.replace(b"~", b"~0").replace(b"/", b"~1")
+
+    def patch(self):
+        rng, sim = self.rng, self.sim
+        root = self.pick(lambda i: sim.n[i]["kind"] in "oa" and sim.owns(i) > 0)
+        if root is None:
+            return
+        w = rng.random()
+        toks, cur = self.descend(root, 0.5)
+        if sim.n[cur]["kind"] not in "oa":
+            toks, cur = toks[:-1], None
+            if not toks and cur is None:
+                cur = root
+            else:
+                return
+        if w < 0.3 or w >= 0.85:
+            v = rng.choice([None, self.pick(lambda i: True), "plain", "plain"])
+            if v == "plain":     # a value without userdata: the only kind json_patch can copy
+                v = self.pick(lambda i: not sim._any_cb(i))
+                if v is None or rng.random() < 0.5:
+                    v = self.new()
+                    self.do("clrud h%d" % v)
+                    if rng.random() < 0.4 and sim.n[v]["kind"] in "oa":
+                        c = self.new(rng.choice(["newint", "newarr"]))
+                        self.do("clrud h%d" % c)
+                        self.put_into(v, c)
+            existing = w >= 0.85
+            path = b"/" + b"/".join(toks + [self.last_token(cur, existing)])
+            self.do("%s h%d %s %s" % ("prepl" if existing else "padd", root, path.hex(), self.hs(v)),
+                    "patch-replace" if existing else "patch-add")
+        elif w < 0.5:
+            if not sim.n[cur]["kids"]:
+                return
+            path = b"/" + b"/".join(toks + [self.last_token(cur, rng.random() < 0.9)])
+            self.do("prem h%d %s" % (root, path.hex()), "patch-remove")
+        else:
+            ftoks, fcur = self.descend(root, 0.6)
+            if sim.n[fcur]["kind"] not in "oa" or not sim.n[fcur]["kids"]:
+                return
+            frm = b"/" + b"/".join(ftoks + [self.last_token(fcur, True)])
+            path = b"/" + b"/".join(toks + [self.last_token(cur, False)])
+            self.do("%s h%d %s %s" % ("pmove" if w < 0.7 else "pcopy", root, frm.hex(), path.hex()),
+                    "patch-move" if w < 0.7 else "patch-copy")
 
     def ptrset(self):
         rng, sim = self.rng, self.sim
@@ -737,5 +944,8 @@ LEVEL_TEXT = ("Machine-checked invariant: for every admissible history of constr
               "reachability simulation of the property statement.")
 LEVEL_NOTE = ("Trusted: Coq kernel; extraction + OCaml glue; harness and its callback log; the Python ownership oracle; the theorems are "
               "about the Gallina model (which detaches before it releases; C releases before it stores — equivalent on acyclic heaps), the C "
-              "code is tied to it only by the checked correspondence (sampled histories, not all).  json_patch operations are covered "
-              "as the compositions get + pointer_set / delete they are implemented by, not as separate model operations.")
+              "code is tied to it only by the checked correspondence (sampled histories, not all).  One-operation JSON patches "
+              "(add/replace/remove/copy/move, unescaped tokens, not on the root) are run by the model driver as the compositions of model "
+              "steps json_patch.c implements them by (get of the value, object add / array insert / put_idx, object del / del_idx, put "
+              "on failure): the theorems cover them as sequences of admissible steps, the composition itself is OCaml glue checked "
+              "only by the correspondence and the ownership oracle.")
